@@ -23,6 +23,8 @@ import (
 	"fmt"
 	"hash/fnv"
 	"os"
+	"os/exec"
+	"runtime"
 	"path/filepath"
 	"runtime/debug"
 	"slices"
@@ -513,6 +515,22 @@ func Register[C any](p Prop[C]) Prop[C] {
 		}
 		return Guard(func() error { return p.Check(c) })
 	}
+	// A batch of this kind that failed when checked concurrently
+	// (RunConcurrent) is replayed the same way, 20 times.
+	replayers[p.Kind+".conc"] = func(raw json.RawMessage) error {
+		var cases []C
+		if err := json.Unmarshal(raw, &cases); err != nil {
+			return fmt.Errorf("decoding case: %w", err)
+		}
+		inBatch.Store(true)
+		defer inBatch.Store(false)
+		for i := 0; i < 20; i++ {
+			if err := runBatch(p, cases, 8); err != nil {
+				return err
+			}
+		}
+		return nil
+	}
 	return p
 }
 
@@ -522,6 +540,9 @@ func RegisterReplay(kind string, f func(raw json.RawMessage) error) { replayers[
 // Run drives a Prop with rapid.
 func Run[C any](t *testing.T, p Prop[C]) {
 	t.Helper()
+	if os.Getenv("VP_COLD") != "" {
+		return // a cold-start child only runs the one concurrent batch it was started for
+	}
 	if _, ok := replayers[p.Kind]; !ok {
 		Register(p)
 	}
@@ -547,31 +568,46 @@ func Run[C any](t *testing.T, p Prop[C]) {
 func RunConcurrent[C any](t *testing.T, p Prop[C], base, batch, goroutines int) {
 	t.Helper()
 	kind := p.Kind + ".conc"
-	run := func(cases []C) error {
-		errs := make([]error, goroutines)
-		var start, done sync.WaitGroup
-		start.Add(1)
-		for g := 0; g < goroutines; g++ {
-			done.Add(1)
-			go func(g int) {
-				defer done.Done()
-				start.Wait()
-				for i := g; i < len(cases); i += goroutines {
-					if err := Guard(func() error { return p.Check(cases[i]) }); err != nil && errs[g] == nil {
-						errs[g] = err
-					}
+	run := func(cases []C) error { return runBatch(p, cases, goroutines) }
+	runConcurrentRest(t, p, kind, run, base, batch)
+}
+
+// runBatch checks the cases of one batch from several goroutines at once.
+func runBatch[C any](p Prop[C], cases []C, goroutines int) error {
+	errs := make([]error, goroutines)
+	var done sync.WaitGroup
+	// A spinning barrier: all goroutines leave it within a fraction of a
+	// microsecond, so their first calls really overlap (a sync.WaitGroup
+	// barrier releases them one by one through the scheduler).
+	var arrived atomic.Int32
+	for g := 0; g < goroutines; g++ {
+		done.Add(1)
+		go func(g int) {
+			defer done.Done()
+			arrived.Add(1)
+			for spins := 0; arrived.Load() < int32(goroutines); spins++ {
+				if spins%2000 == 1999 {
+					runtime.Gosched()
 				}
-			}(g)
-		}
-		start.Done()
-		done.Wait()
-		for _, e := range errs {
-			if e != nil {
-				return fmt.Errorf("with %d cases checked concurrently from %d goroutines: %w", len(cases), goroutines, e)
 			}
-		}
-		return nil
+			for i := g; i < len(cases); i += goroutines {
+				if err := Guard(func() error { return p.Check(cases[i]) }); err != nil && errs[g] == nil {
+					errs[g] = err
+				}
+			}
+		}(g)
 	}
+	done.Wait()
+	for _, e := range errs {
+		if e != nil {
+			return fmt.Errorf("with %d cases checked concurrently from %d goroutines: %w", len(cases), goroutines, e)
+		}
+	}
+	return nil
+}
+
+func runConcurrentRest[C any](t *testing.T, p Prop[C], kind string, run func(cases []C) error, base, batch int) {
+	t.Helper()
 	replayers[kind] = func(raw json.RawMessage) error {
 		var cases []C
 		if err := json.Unmarshal(raw, &cases); err != nil {
@@ -585,6 +621,75 @@ func RunConcurrent[C any](t *testing.T, p Prop[C], base, batch, goroutines int) 
 			}
 		}
 		return nil
+	}
+	// Cold starts.  A child process (VP_COLD=<kind>:<index>) runs exactly one
+	// batch of this kind as the first thing it ever does with the library, so
+	// that lazily initialised package-level state is first touched by several
+	// goroutines at once; the parent starts a few such children per kind.
+	if cold := os.Getenv("VP_COLD"); cold != "" {
+		name, idx, _ := strings.Cut(cold, ":")
+		if name != kind {
+			return // stay cold for the kind this process was started for
+		}
+		n, _ := strconv.ParseUint(idx, 10, 64)
+		_ = flag.Set("rapid.checks", "1")
+		_ = flag.Set("rapid.seed", strconv.FormatUint(splitmix(KindSeed(kind)+n+1)|1, 10))
+		_ = flag.Set("rapid.nofailfile", "true")
+		_ = flag.Set("rapid.shrinktime", "1ms") // the process is warm after the first run: nothing to shrink
+		rapid.Check(t, func(rt *rapid.T) {
+			cases := make([]C, batch)
+			for i := range cases {
+				cases[i] = p.Gen(rt)
+			}
+			inBatch.Store(true)
+			err := run(cases)
+			inBatch.Store(false)
+			if err != nil {
+				RecordFailure(kind, cases, fmt.Errorf("in a fresh process, as the first use of the library: %w", err))
+				rt.Fatalf("%s (cold start): %v", kind, err)
+			}
+		})
+		return
+	}
+	coldPhase := func(test string, n int) (int, error) {
+		errs := make([]error, n)
+		var wg sync.WaitGroup
+		for i := 0; i < n; i++ {
+			wg.Add(1)
+			go func() { // the children are independent processes: start them together
+				defer wg.Done()
+				cmd := exec.Command(os.Args[0], "-test.run", "^"+test+"$", "-test.count=1", "-test.timeout=120s")
+				for _, e := range os.Environ() {
+					if k, _, _ := strings.Cut(e, "="); k == "VP_OUT" || k == "VP_CUR" || k == "VP_HASHES" || k == "VP_COLD" || k == "VP_REPLAY" {
+						continue
+					}
+					cmd.Env = append(cmd.Env, e)
+				}
+				cmd.Env = append(cmd.Env, fmt.Sprintf("VP_COLD=%s:%d", kind, i))
+				out, err := cmd.CombinedOutput()
+				if err != nil {
+					tail := string(out)
+					if len(tail) > 3000 {
+						tail = tail[len(tail)-3000:]
+					}
+					errs[i] = fmt.Errorf("a fresh process whose first use of the library is one concurrent batch of %s failed (%v; a data race report, if any, is in the race log):\n%s", kind, err, tail)
+				}
+			}()
+		}
+		wg.Wait()
+		EvalN(kind+".cold", int64(n))
+		for i, e := range errs {
+			if e != nil {
+				return i, e
+			}
+		}
+		return 0, nil
+	}
+	if os.Getenv("VP_REPLAY") == "" {
+		if i, err := coldPhase(t.Name(), coldStarts()); err != nil {
+			Fail(t, kind+".cold", map[string]any{"kind": kind, "test": t.Name(), "cold_start_index": i}, err)
+			return
+		}
 	}
 	SetRapid(kind, N(base))
 	rapid.Check(t, func(rt *rapid.T) {
@@ -605,6 +710,14 @@ func RunConcurrent[C any](t *testing.T, p Prop[C], base, batch, goroutines int) 
 		}
 		NonTrivialStr(kind, fmt.Sprintf("%v", cases))
 	})
+}
+
+// coldStarts is the number of fresh child processes per concurrent kind.
+func coldStarts() int {
+	if Thorough() {
+		return 12
+	}
+	return 4
 }
 
 // Variant returns the build variant name of this process.
